@@ -55,7 +55,12 @@ type Frame struct {
 	envVars      map[string]Val
 	refs         map[string][]refRec
 	callOrdinals map[*CallAnn]map[string]int
-	root         *Frame // the frame of the function under contract (nil for that frame itself)
+	root         *Frame              // the frame of the function under contract (nil for that frame itself)
+	aliases      map[string][]string // recorded local name -> names it may go by now (renames)
+	argSrc       map[string]string   // parameter name -> the caller's source text of the argument (inlined frames)
+	posPath      string              // chain of call positions from the function under contract to this (inlined) frame
+	expLoops     map[string]string   // (top frame) loop descriptors numbered over the expanded text
+	aliasOK      bool
 	path         string // chain of call sites from the function under contract to this (inlined) frame
 	curBlock     *ssa.BasicBlock
 	// results
@@ -206,9 +211,11 @@ func (c *Ctx) execFunc(fr *Frame, args []Val, st *State, R string) ([]Val, *Stat
 			}
 		}
 	}
-	for _, la := range fr.loopAnns() {
-		if !la.matched {
-			c.fail("loop annotation %q of %s matches no loop", la.Desc, fr.fn)
+	if fr.root == nil {
+		for _, la := range fr.loopAnns() {
+			if !la.matched {
+				c.fail("loop annotation %q of %s matches no loop", la.Desc, fr.fn)
+			}
 		}
 	}
 	if fr.top && fr.contract != nil {
@@ -241,8 +248,184 @@ func (c *Ctx) execFunc(fr *Frame, args []Val, st *State, R string) ([]Val, *Stat
 	return rv, out, Rret
 }
 
+// localAliases of the function under contract (computed once).
+func (fr *Frame) localAliases() map[string][]string {
+	if !fr.aliasOK {
+		fr.aliasOK = true
+		if fr.contract != nil {
+			fr.aliases = fr.c.W.localAliases(fr.fn, fr.contract)
+		}
+	}
+	return fr.aliases
+}
+
+// renamedDesc rewrites the identifiers of a loop descriptor that were renamed since the contract was written (only
+// names with exactly one current name).
+func (fr *Frame) renamedDesc(desc string) string {
+	al := fr.localAliases()
+	if len(al) == 0 {
+		return desc
+	}
+	var b strings.Builder
+	i := 0
+	for i < len(desc) {
+		c := desc[i]
+		if c == '_' || (c >= 'a' && c <= 'z') || (c >= 'A' && c <= 'Z') {
+			j := i
+			for j < len(desc) && (desc[j] == '_' || (desc[j] >= 'a' && desc[j] <= 'z') || (desc[j] >= 'A' && desc[j] <= 'Z') || (desc[j] >= '0' && desc[j] <= '9')) {
+				j++
+			}
+			w := desc[i:j]
+			prevDot := i > 0 && desc[i-1] == '.'
+			if cands, ok := al[w]; ok && len(cands) == 1 && !prevDot {
+				w = cands[0]
+			}
+			b.WriteString(w)
+			i = j
+			continue
+		}
+		b.WriteByte(c)
+		i++
+	}
+	return b.String()
+}
+
+// expandLoopDescs numbers the loop descriptors of fn over the text with every contract-less repository function it
+// calls expanded at the call (recursively): "for()#2" keeps meaning the same loop when another "for()" loop is moved into
+// a helper, and a loop that ranges over a helper's parameter is described by the caller's name for the argument.
+func (fr *Frame) expandLoopDescs(fn *ssa.Function, posPath string, subst map[string]string, stack []*ssa.Function, counts map[string]int) {
+	w := fr.c.W
+	syn := fn.Syntax()
+	if syn == nil || fn.Pkg == nil {
+		return
+	}
+	var body *ast.BlockStmt
+	switch d := syn.(type) {
+	case *ast.FuncDecl:
+		body = d.Body
+	case *ast.FuncLit:
+		body = d.Body
+	}
+	if body == nil {
+		return
+	}
+	pkg := w.allPkgs[fn.Pkg.Pkg.Path()]
+	name := func(d string) string {
+		if len(subst) > 0 {
+			d = substIdents(d, subst)
+		}
+		counts[d]++
+		if counts[d] > 1 {
+			d = fmt.Sprintf("%s#%d", d, counts[d])
+		}
+		return d
+	}
+	ast.Inspect(body, func(n ast.Node) bool {
+		switch x := n.(type) {
+		case *ast.FuncLit:
+			return false
+		case *ast.RangeStmt:
+			fr.expLoops[fmt.Sprintf("%s|%d", posPath, int(x.Pos()))] = name("range(" + normWS(w.nodeText(x.X)) + ")")
+		case *ast.ForStmt:
+			d := "for("
+			if x.Cond != nil {
+				d += normWS(w.nodeText(x.Cond))
+			}
+			fr.expLoops[fmt.Sprintf("%s|%d", posPath, int(x.Pos()))] = name(d + ")")
+		case *ast.CallExpr:
+			if pkg == nil || pkg.TypesInfo == nil || len(stack) > maxInlineDepth {
+				return true
+			}
+			var obj types.Object
+			switch f := x.Fun.(type) {
+			case *ast.Ident:
+				obj = pkg.TypesInfo.Uses[f]
+			case *ast.SelectorExpr:
+				if sel, ok := pkg.TypesInfo.Selections[f]; ok {
+					obj = sel.Obj()
+				} else {
+					obj = pkg.TypesInfo.Uses[f.Sel]
+				}
+			}
+			fo, ok := obj.(*types.Func)
+			if !ok {
+				return true
+			}
+			callee := w.prog.FuncValue(fo)
+			if callee == nil || callee.Blocks == nil {
+				return true
+			}
+			if fc := w.contracts[fnKey(callee)]; fc != nil && !fc.Flags["inline"] {
+				return true
+			}
+			if !(w.isRepoPkg(pkgOf(callee)) || w.inlinePkg[pkgPath(callee)] || fr.c.inlineExtra[pkgPath(callee)]) {
+				return true
+			}
+			for _, f := range stack {
+				if f == callee {
+					return true
+				}
+			}
+			sub := map[string]string{}
+			ps := callee.Params
+			off := 0
+			if callee.Signature.Recv() != nil {
+				off = 1
+				if se, ok := x.Fun.(*ast.SelectorExpr); ok && len(ps) > 0 {
+					sub[ps[0].Name()] = substIdents(normWS(w.nodeText(se.X)), subst)
+				}
+			}
+			for i, a := range x.Args {
+				if i+off < len(ps) {
+					sub[ps[i+off].Name()] = substIdents(normWS(w.nodeText(a)), subst)
+				}
+			}
+			fr.expandLoopDescs(callee, fmt.Sprintf("%s/%d", posPath, int(x.Lparen)), sub, append(append([]*ssa.Function{}, stack...), callee), counts)
+		}
+		return true
+	})
+}
+
+// substIdents replaces whole identifiers (not selectors after a dot) according to the map.
+func substIdents(text string, m map[string]string) string {
+	var b strings.Builder
+	i := 0
+	isId := func(c byte, first bool) bool {
+		return c == '_' || (c >= 'a' && c <= 'z') || (c >= 'A' && c <= 'Z') || (!first && c >= '0' && c <= '9')
+	}
+	for i < len(text) {
+		if isId(text[i], true) {
+			j := i
+			for j < len(text) && isId(text[j], false) {
+				j++
+			}
+			w := text[i:j]
+			if r, ok := m[w]; ok && !(i > 0 && text[i-1] == '.') {
+				w = r
+			}
+			b.WriteString(w)
+			i = j
+			continue
+		}
+		b.WriteByte(text[i])
+		i++
+	}
+	return b.String()
+}
+
 func (fr *Frame) loopAnns() []*LoopAnn {
 	if fr.contract == nil {
+		// a contract-less helper expanded in place: the loop annotations of the function under contract that matched no
+		// loop of its own follow the statements into the helper
+		if fr.root != nil && fr.root.contract != nil {
+			var out []*LoopAnn
+			for _, la := range fr.root.contract.Loops {
+				if !la.matched || la.inHelper {
+					out = append(out, la)
+				}
+			}
+			return out
+		}
 		return nil
 	}
 	return fr.contract.Loops
@@ -355,6 +538,20 @@ func (fr *Frame) findLoops() {
 		}
 		if best >= 0 {
 			li.desc = stmts[best].desc
+			// descriptors are numbered over the text with contract-less helpers expanded in place
+			top := fr
+			if fr.root != nil {
+				top = fr.root
+			}
+			if top.top && top.contract != nil {
+				if top.expLoops == nil {
+					top.expLoops = map[string]string{}
+					top.expandLoopDescs(top.fn, "", nil, []*ssa.Function{top.fn}, map[string]int{})
+				}
+				if d, ok := top.expLoops[fmt.Sprintf("%s|%d", fr.posPath, int(stmts[best].node.Pos()))]; ok {
+					li.desc = d
+				}
+			}
 		} else {
 			li.desc = fmt.Sprintf("block%d", li.header.Index)
 		}
@@ -362,9 +559,18 @@ func (fr *Frame) findLoops() {
 			fmt.Fprintf(os.Stderr, "loop header block %d of %s: %s\n", li.header.Index, fr.fn.Name(), li.desc)
 		}
 		for _, la := range fr.loopAnns() {
-			if la.Desc == li.desc {
+			hit := la.Desc == li.desc || fr.renamedDesc(la.Desc) == li.desc
+			if !hit && fr.root != nil && len(fr.argSrc) > 0 {
+				// a loop moved into a helper ranges over a parameter: compare with the caller's name for the argument
+				d := substIdents(li.desc, fr.argSrc)
+				hit = la.Desc == d || fr.root.renamedDesc(la.Desc) == d
+			}
+			if hit {
 				li.ann = la
 				la.matched = true
+				if fr.root != nil {
+					la.inHelper = true
+				}
 			}
 		}
 	}
